@@ -27,6 +27,10 @@ CLAIMED = {
          "Structural necessary conditions: no delivery, control handling, close or replay-window mark without a prior successful AEAD open of that datagram under the read key with the header+session id+counter as associated data; the counter checked is the counter marked; the send counter advances exactly once per seal under the session lock; Write's chunk loop starts at 0, steps by its chunk width, propagates errors and reports what it sent; plaintext flows only into Seal.",
          "Trusts go/ssa and the role tables. The window algorithm (C14) and SANSE itself (C12) are not decided here. An unrecognised chunk-loop shape yields UNDECIDED, not a pass.",
          "DESIGN.md §3 C03"),
+ "C02": ("path-sensitive region extraction over go/ssa (linear offsets of every absorbed / decrypted / decapsulated / MAC-compared view of the received buffer, copy mirrors with dirtiness, re-basing) with an exact tiling test against the reported length; branch facts in the callers for the exact-length test; event-sequence shape of deriveFinalKeys with constant-label comparison; who-may-write and call-site provenance for the per-handshake randomness",
+         "Structural necessary conditions: on every success path of each of the seven live handshake readers the received bytes [0,n) are tiled exactly by ranges that enter the transcript before the last MAC comparison, n being the length reported; every accepting caller found that length equal to the datagram length; deriveFinalKeys is ratchet / distinct constant label / squeeze per direction, called with the same argument order at both ends, with mirrored read/write assignment; X25519 ephemerals are generated on every state-creating path and their key bytes written nowhere else, KEM operations draw from crypto/rand.Reader, session ids from crypto/rand.",
+         "Trusts go/ssa; offsets are compared as linear forms (non-linear length arithmetic would be reported undecided). Equality of the derived key bytes, their unpredictability, and writer-side provenance / writer-reader sequence agreement (DESIGN R3, R4: any asymmetry there fails every handshake and is what the existing tests do catch) are not decided.",
+         "DESIGN.md §3 C02"),
  "C15": ("who-may-write on SessionState.remoteAddr and the replay window, dominance with polarity (address store after readPacketLocked's nil edge), ordered-event path analysis of Handle.send (lock, seal, capture, write)",
          "Structural necessary conditions: the peer address has exactly four writers (two constructions, two post-authentication tails); the tail stores are dominated by a successful open+replay check of the datagram whose source they store; nothing else reads, copies or writes the replay window; the sender uses the address captured under the lock after sealing.",
          "Trusts go/ssa; C03.R1 supplies that readPacketLocked's success implies Check and Open. History-level roaming behaviour is not decided.",
